@@ -103,6 +103,17 @@ template <class X> void run(Ctx& c, const Str& Bs, const Str& Rs, const char* ge
         // where the RFC result is a host-less path starting with "//", either form of the single "." guard segment is fine
         { Comp Tn; resolve(mb, mr, compat, &Tn, false);
           if (!Tn.hasAuth && Tn.path.size() >= 2 && Tn.path[0] == '/' && Tn.path[1] == '/') { Comp a1 = Tn, a2 = Tn; a1.path = "/." + Tn.path; a2.path = "./" + Tn.path; if (out == recompose(a1) || out == recompose(a2)) { expect = out; T.path = out == recompose(a1) ? a1.path : a2.path; c.count("guard_segment_results"); } } }
+        // A rootless path whose ".." climb onto an empty segment ("a/..//c", "..//c" merged behind "a/"): RFC 5.2.4 on that very string
+        // gives "//c" -- a host-less path beginning with "//", for which the property wants the "." guard ("/.//c"). The pinned library
+        // keeps such a list rootless, which makes its text "/c": one slash short, and an absolute path made from a rootless one. The
+        // calibrated model reproduced that; the strict reading is the property's, the library's result is a recorded finding.
+        { Str pre; Comp Tx; resolve(mb, mr, compat, &Tx, false, &pre);
+          if (!pre.empty() && !Tx.hasAuth) { Str strict = rfc_remove_dot_segments(pre);
+              if (strict.size() >= 2 && strict[0] == '/' && strict[1] == '/' && Tx.path == strict.substr(1)) {
+                  Comp g1 = Tx, g2 = Tx; g1.path = "/." + strict; g2.path = "./" + strict; c.count("rootless_climb_onto_empty_segment");
+                  if (out == recompose(g1) || out == recompose(g2)) { expect = out; }
+                  else if (out == recompose(Tx) || (Tx.path.size() >= 2 && Tx.path[0] == '/' && Tx.path[1] == '/' && [&]() { Comp l1 = Tx, l2 = Tx; l1.path = "/." + Tx.path; l2.path = "./" + Tx.path; return out == recompose(l1) || out == recompose(l2); }())) { c.violation("C06", fmt("resolve/%s/text/rootless-path-climbing-onto-an-empty-segment-loses-a-slash", X::tag()), what + fmt(" library=\"%s\" rfc-with-guard=\"%s\" [%s]", esc(out).c_str(), esc(recompose(g1)).c_str(), gen)); expect = out; }
+                  else expect = recompose(g1); } } }
         if (out != expect) {
             // diagnose against the documented legacy behaviours (known findings); anything else is unexplained
             Str key = "unexplained";
